@@ -287,7 +287,7 @@ Fixpoint vshow_fuel (fuel : nat) (h : heap) (v : value) : bytes :=
           | _ => [63]
           end
       | VStruct tn fs =>
-          tn ++ [40] ++ (match alookup_b [78;97;109;101] fs with Some x => vshow_fuel f h x | None => [] end) ++ [41]
+          tn ++ [40] ++ (match alookup_b [78;97;109;101] fs with Some x => vshow_fuel f h x | None => [115] end) ++ [41]
       | VPtr x => 38 :: vshow_fuel f h x
       | VNilPtr _ => [38; 110]
       | VOther 2 => [72; 48]                      (* HelperContext without block *)
@@ -296,3 +296,12 @@ Fixpoint vshow_fuel (fuel : nat) (h : heap) (v : value) : bytes :=
       end
   end.
 Definition vshow (h : heap) (v : value) : bytes := vshow_fuel (length h + 16) h v.
+
+(* reflect.Type.Comparable of a dynamic value (can it be a map key?) *)
+Fixpoint comparable_v (v : value) : bool :=
+  match v with
+  | VSlice _ | VMap _ | VList _ | VGo _ _ | VBound _ _ | VClosure _ _ | VRefl _ => false
+  | VStruct _ fs => (fix go (l : list (bytes * value)) : bool :=
+                       match l with [] => true | (_, x) :: r => comparable_v x && go r end) fs
+  | _ => true
+  end.
